@@ -1,5 +1,20 @@
 """C10 - only strong public keys are certified; malformed input never panics a handler."""
 import certpolicy
+import tablecheck
+import c11 as _c11
+import c04 as _c04
+
+
+def _merge(res, sub, tag):
+    """fold the result of a malformed-input sweep over another module's table into C10's result"""
+    for sig, path in sub.violations:
+        res.violations.append((sig, path))
+    for k, v in sub.known_hits.items():
+        res.known_hits.setdefault(k, [v[0], 0])[1] += v[1]
+    res.notes.extend(sub.notes)
+    for k in ("states", "transitions", "traces_validated_against_impl", "evaluations", "panics"):
+        res.cov[k] = res.cov.get(k, 0) + sub.cov.get(k, 0)
+    res.cov["sweep_" + tag] = {"events": sub.cov.get("evaluations", 0), "panics": sub.cov.get("panics", 0)}
 
 
 def sig_fields(ev):
@@ -16,6 +31,23 @@ def run(tier, seed, work, replay):
                        "issuing paths enumerated by TLC, plus %d seeded byte-level mutations of valid encodings "
                        "classified by the standard parsers; panics of ANY handler are recorded on every event" % nmut)
     res.cov["mutation_samples"] = nmut
+    # "malformed input never panics a handler" is about every input surface, not only public keys: the same guard is
+    # evaluated over the certificate-extension table of KMNetblock (structurally corrupted address extensions signed by
+    # the trusted CA, presented to the library, the authentication gate and the refresh endpoint) and, in the thorough
+    # tier, over the token table of KMTokens (random byte corruptions of every signed artefact at every consumer)
+    sub, _ = tablecheck.run_table(
+        "C10", tier, seed, work, "KMNetblock", [], "Gen_KMNetblock", "Gen_KMNetblock.cfg", "Trace_KMNetblock",
+        "Trace_KMNetblock.cfg", lambda ev: dict(_c11.sig(ev), surface="address-extension"),
+        lambda e: (e["case"]["site"], e["case"]["ext"], e["out"]["panic"]), guard_prefixes=["G_C10_NoPanic"], harness_prop="C11")
+    _merge(res, sub, "address_extension")
+    if tier != "quick":
+        n = 6000
+        sub, _ = tablecheck.run_table(
+            "C10", tier, seed, work, "KMTokens", [], "Gen_KMTokens", "Gen_KMTokens_C04.cfg", "Trace_KMTokens",
+            "Trace_KMTokens.cfg", lambda ev: dict(_c04.sig(ev), surface="token"),
+            lambda e: (e["case"]["consumer"], e["case"]["art"]["kind"], e["out"]["panic"]), guard_prefixes=["G_C10_NoPanic"],
+            harness_prop="C04", env={"VERIF_CORRUPTIONS": str(n)}, confirm_env={"VERIF_CORRUPTIONS": "0"})
+        _merge(res, sub, "token")
     res.cov["exhaustive"] = False
     res.assumptions.append("byte-level robustness is sampled (seeded mutation), not coverage-guided fuzzing")
     return res.finish()
